@@ -1315,6 +1315,23 @@ public:
     }
     else if_constexpr_named(cond3, detail::rlbox_is_tainted_volatile_v<T_Rhs>)
     {
+      // As above: the representations would be copied whatever the pointer
+      // types of the two fields
+      using T_El = std::remove_all_extents_t<T>;
+      using T_RhsRawEl = std::remove_all_extents_t<
+        detail::rlbox_remove_wrapper_t<std::remove_cv_t<T_Rhs>>>;
+      if_constexpr_named(
+        subcond3,
+        (std::is_pointer_v<T_El> || std::is_pointer_v<T_RhsRawEl>) &&
+          !(std::is_pointer_v<T_El> &&
+            std::is_assignable_v<T_El&, T_RhsRawEl>))
+      {
+        rlbox_detail_static_fail_because(
+          cond3 && subcond3,
+          "Trying to assign a tainted value to a pointer field of an "
+          "incompatible type");
+      }
+
       using namespace detail;
       convert_type_non_class<T_Sbx,
                              adjust_type_direction::NO_CHANGE,
